@@ -1,6 +1,7 @@
 package main
 
 import (
+	"go/ast"
 	"go/token"
 	"go/types"
 	"strings"
@@ -116,6 +117,8 @@ func knownMinLen1(x ssa.Value) int64 {
 			if sep, ok := constString(v.Call.Args[1]); ok && sep != "" {
 				return 1
 			}
+		case "internal/language/data.List.Elements":
+			return minArgsOfList(v.Call.Args[0])
 		}
 
 		// a repository function all of whose returns have a known minimum length (one level deep)
@@ -134,6 +137,19 @@ func knownMinLen1(x ssa.Value) int64 {
 	case *ssa.MakeSlice:
 		if n, ok := constInt(v.Len); ok {
 			return n
+		}
+	case *ssa.BinOp:
+		// string concatenation: at least the constant parts
+		if v.Op == token.ADD && isStringType(v.Type()) {
+			total := int64(0)
+
+			for _, side := range []ssa.Value{v.X, v.Y} {
+				if m := knownMinLen(side); m > 0 {
+					total += m
+				}
+			}
+
+			return total
 		}
 	case *ssa.Convert:
 		// []byte("const"), string(x)
@@ -161,6 +177,36 @@ func knownMinLen1(x ssa.Value) int64 {
 		if v.Op == token.MUL {
 			if g, ok := v.X.(*ssa.Global); ok && g.Pkg != nil && g.Pkg.Pkg.Path() == "os" && g.Name() == "Args" {
 				return 1
+			}
+
+			// a package-level slice assigned in this function before the use
+			// (table = make([]T, N); table[k] = …)
+			if g, ok := v.X.(*ssa.Global); ok && v.Parent() != nil {
+				min, dominated := int64(-1), false
+
+				first := true
+
+				allInstrs(v.Parent(), func(in ssa.Instruction) {
+					st, isStore := in.(*ssa.Store)
+					if !isStore || st.Addr != ssa.Value(g) {
+						return
+					}
+
+					if instrDominates(st, v) {
+						dominated = true
+					}
+
+					m := knownMinLenNoPhi(st.Val)
+					if first || m < min {
+						min = m
+					}
+
+					first = false
+				})
+
+				if dominated {
+					return min
+				}
 			}
 
 			// a field just assigned in the same block (x.f = make([]T, n); x.f[0] = …)
@@ -258,6 +304,18 @@ func sameSliceValue(a, b ssa.Value) bool {
 		return true
 	}
 
+	// a data.List value and its Elements()
+	la, lb := listElementsOf(a), listElementsOf(b)
+
+	switch {
+	case la != nil && lb != nil:
+		return listRoot(la) == listRoot(lb)
+	case la != nil:
+		return listRoot(la) == listRoot(b)
+	case lb != nil:
+		return listRoot(lb) == listRoot(a)
+	}
+
 	// m[k] twice with the same map and the same constant key; v, ok := m[k]
 	if la, lb := lookupOf(a), lookupOf(b); la != nil && lb != nil {
 		ka, oka := constString(la.Index)
@@ -272,6 +330,17 @@ func sameSliceValue(a, b ssa.Value) bool {
 	if oka && okb && ua.Op == token.MUL && ub.Op == token.MUL {
 		if ua.X == ub.X {
 			return true
+		}
+
+		// parts[1] read twice: the same constant element of the same slice
+		ia, isA := ua.X.(*ssa.IndexAddr)
+		ib, isB := ub.X.(*ssa.IndexAddr)
+
+		if isA && isB {
+			ka, okA := constInt(ia.Index)
+			kb, okB := constInt(ib.Index)
+
+			return okA && okB && ka == kb && sameSliceValue(ia.X, ib.X)
 		}
 
 		return sameFieldLoad(a, b)
@@ -342,7 +411,65 @@ func lenOf(v ssa.Value) ssa.Value {
 		return c.Call.Args[0]
 	}
 
+	// args.Len() of a data.List is len(args.Elements()); the list value stands for its elements
+	if callID(c.Common()) == "internal/language/data.List.Len" && len(c.Call.Args) == 1 {
+		return c.Call.Args[0]
+	}
+
 	return nil
+}
+
+// listElementsOf: v is list.Elements() of a data.List value; returns the list.
+func listElementsOf(v ssa.Value) ssa.Value {
+	if c, ok := stripValue(v).(*ssa.Call); ok && callID(c.Common()) == "internal/language/data.List.Elements" && len(c.Call.Args) == 1 {
+		return c.Call.Args[0]
+	}
+
+	return nil
+}
+
+// Minimum argument counts of runtime functions, from their declarations
+// (filled by registerNativeMinArgs; keyed by the implementing function).
+var nativeMinArgs = map[*types.Func]int{}
+
+// minArgsOfList: v is the data.List parameter of a runtime function whose
+// declaration fixes a minimum argument count (callRuntimeFunction refuses a
+// call with fewer arguments before the function runs).
+// listRoot names a data.List held in a local: the value itself, a load of the
+// local, or the local's address (methods with pointer receivers) all resolve
+// to the one value stored there.
+func listRoot(v ssa.Value) ssa.Value {
+	v = stripValue(v)
+
+	if _, isPtr := v.Type().Underlying().(*types.Pointer); isPtr {
+		if vals, ok := storedValues(v); ok && len(vals) == 1 {
+			return resolveLocal(vals[0])
+		}
+
+		return v
+	}
+
+	return resolveLocal(v)
+}
+
+func minArgsOfList(v ssa.Value) int64 {
+	v = listRoot(v)
+
+	p, ok := v.(*ssa.Parameter)
+	if !ok || p.Parent() == nil {
+		return -1
+	}
+
+	f, ok := p.Parent().Object().(*types.Func)
+	if !ok {
+		return -1
+	}
+
+	if n, ok := nativeMinArgs[f]; ok {
+		return int64(n)
+	}
+
+	return -1
 }
 
 // indexGuardCuts returns the edges establishing len(x) > k.
@@ -432,6 +559,15 @@ func indexGuardCuts(fn *ssa.Function, x ssa.Value, k int64) map[Edge]bool {
 			}
 		}
 
+		// len(x) - c1 OP c2  is  len(x) OP c2 + c1
+		shift := int64(0)
+
+		if bo, isBin := l.(*ssa.BinOp); isBin && bo.Op == token.SUB && lenOf(bo.X) != nil {
+			if c1, isC := constInt(bo.Y); isC {
+				l, shift = bo.X, c1
+			}
+		}
+
 		lx := lenOf(l)
 		if lx == nil || !sameSliceValue(lx, x) {
 			return false
@@ -441,6 +577,8 @@ func indexGuardCuts(fn *ssa.Function, x ssa.Value, k int64) map[Edge]bool {
 		if !ok {
 			return false
 		}
+
+		n += shift
 
 		switch op {
 		case token.GTR:
@@ -500,4 +638,134 @@ func indexSiteGuarded(fn *ssa.Function, s indexSite) (bool, string) {
 	}
 
 	return false, ""
+}
+
+// registerNativeMinArgs reads every data.Function{Declaration: &data.Declaration{…}, Value: f}
+// literal of the runtime and builtin packages and records the fewest arguments
+// callRuntimeFunction lets through for f: len(Parameters) for a fixed-arity
+// declaration, ArgCount[0] when a range is given, len(Parameters)-1 for a variadic one.
+func registerNativeMinArgs(w *World) int {
+	nativeMinArgs = map[*types.Func]int{}
+
+	for _, p := range w.pkgsUnder("internal/runtime", "internal/builtins") {
+		info := p.TypesInfo
+
+		for _, file := range p.Syntax {
+			ast.Inspect(file, func(n ast.Node) bool {
+				cl, ok := n.(*ast.CompositeLit)
+				if !ok {
+					return true
+				}
+
+				tv, ok := info.Types[cl]
+				if !ok {
+					return true
+				}
+
+				nt := namedOf(tv.Type)
+				if nt == nil || nt.Obj().Name() != "Function" || nt.Obj().Pkg() == nil || !strings.HasSuffix(nt.Obj().Pkg().Path(), "/internal/language/data") {
+					return true
+				}
+
+				var (
+					value ast.Expr
+					decl  *ast.CompositeLit
+				)
+
+				for _, el := range cl.Elts {
+					kv, ok := el.(*ast.KeyValueExpr)
+					if !ok {
+						continue
+					}
+
+					k, _ := kv.Key.(*ast.Ident)
+					if k == nil {
+						continue
+					}
+
+					switch k.Name {
+					case "Value":
+						value = kv.Value
+					case "Declaration":
+						if u, ok := kv.Value.(*ast.UnaryExpr); ok {
+							decl, _ = u.X.(*ast.CompositeLit)
+						}
+					}
+				}
+
+				if value == nil || decl == nil {
+					return true
+				}
+
+				var fobj *types.Func
+
+				switch v := value.(type) {
+				case *ast.Ident:
+					fobj, _ = info.Uses[v].(*types.Func)
+				case *ast.SelectorExpr:
+					fobj, _ = info.Uses[v.Sel].(*types.Func)
+				}
+
+				if fobj == nil {
+					return true
+				}
+
+				params, variadic, lo, hi := 0, false, int64(0), int64(0)
+
+				for _, el := range decl.Elts {
+					kv, ok := el.(*ast.KeyValueExpr)
+					if !ok {
+						continue
+					}
+
+					k, _ := kv.Key.(*ast.Ident)
+					if k == nil {
+						continue
+					}
+
+					switch k.Name {
+					case "Parameters":
+						if pl, ok := kv.Value.(*ast.CompositeLit); ok {
+							params = len(pl.Elts)
+						}
+					case "Variadic":
+						if id, ok := kv.Value.(*ast.Ident); ok && id.Name == "true" {
+							variadic = true
+						}
+					case "ArgCount":
+						if rl, ok := kv.Value.(*ast.CompositeLit); ok && len(rl.Elts) == 2 {
+							if a, ok := info.Types[rl.Elts[0]]; ok && a.Value != nil {
+								lo, _ = constantInt64(a.Value)
+							}
+
+							if b, ok := info.Types[rl.Elts[1]]; ok && b.Value != nil {
+								hi, _ = constantInt64(b.Value)
+							}
+						}
+					}
+				}
+
+				min := params
+
+				switch {
+				case lo != 0 || hi != 0:
+					min = int(lo)
+				case variadic:
+					// validateArgCount: at least the non-variadic parameters
+					min = params - 1
+					if min < 0 {
+						min = 0
+					}
+				}
+
+				if old, seen := nativeMinArgs[fobj]; !seen || min < old {
+					nativeMinArgs[fobj] = min
+				}
+
+				return true
+			})
+		}
+	}
+
+	return len(nativeMinArgs)
 }
